@@ -4,6 +4,7 @@
 Require Import Coq.ZArith.ZArith.
 Require Import Trzsz.Model.Buffer.
 Require Import Trzsz.Model.Escape.
+Require Import Trzsz.Model.Noise.
 Require Extraction.
 Require Import ExtrOcamlBasic.
 Extraction "model.ml"
@@ -39,4 +40,13 @@ Extraction "model.ml"
   Escape.table_of_json
   Escape.builtin_table
   Escape.esc_code
-  Escape.unesc_code.
+  Escape.unesc_code
+  Noise.recv_line
+  Noise.recv_line_windows
+  Noise.win_run
+  Noise.junk_run
+  Noise.strip_tmux_status
+  Noise.marker_cut
+  Noise.is_trzsz_letter
+  Noise.is_vt100_end
+  Noise.read_line_windows.
